@@ -27,14 +27,23 @@ var properties = []Property{
 		LevelNote:  "Trusted: go/types+go/ssa. The typestate treats any type test of the current token as 'seen'. Acceptance completeness is only covered through GRAM.table/chain.",
 	}, {ID: "C03"}, {ID: "C04"}, {ID: "C05"}, 
 	{ID: "C06", Title: "Variant operators implement the arithmetic of the first operand's type",
-		Rules:     []string{"OPS.cell", "OPS.null", "OPS.convert", "OPS.override", "OPS.in", "PANIC.div", "PANIC.shift", "GRAM.emptycase"},
+		Rules:     []string{"OPS.cell", "OPS.null", "OPS.convert", "OPS.override", "OPS.in", "PANIC.div", "PANIC.shift", "GRAM.emptycase", "CONV.cell", "CONV.tag"},
 		Technique: "normalised SSA expression trees per (operator × first-operand type) cell compared with the operator matrix of the statement; boolean cells and the Null policy folded into truth tables; dominating-guard check for division and shifts",
 		Explanation: "For the 21 operator methods (resolved through IVariantOperations, shared by both managers — checked) the checker extracts every cell as a normalised expression tree from go/ssa (temporaries, parentheses, if/switch spelling and commutative operand order disappear; short-circuit boolean code becomes a truth table) and compares it with host-operator(As<T>(value1), As<T>(Convert(value2, type of value1))); the Null policy is read off as a decision table; conversions and their error propagation, In's element test and GetElement's index conversion are checked; every integer division and signed shift must be dominated by a zero / range test.",
 		NotDecided: "numeric results of the host operators (Go semantics trusted), NaN/overflow behaviour, string collation",
 		LevelText:  "Table agreement between the code's operator cells and the matrix the statement prescribes, on every run, for all 92 required cells and all null-policy rows; plus a sound dominating-guard argument for the two crash classes (division by zero, negative shift). A deviating cell is a concrete wrong result for some operand pair.",
 		LevelNote:  "Trusted: go/ssa, Go operator semantics. The expected matrix is written from the statement and confirmed by reading. Extra cells beyond the matrix are only type-checked.",
 	},
-	 {ID: "C07"}, {ID: "C08"}, {ID: "C09"}, {ID: "C10"},
+	 
+	{ID: "C07", Title: "Variant conversions deliver the requested type and round-trip losslessly",
+		Rules:     []string{"CONV.tag", "CONV.identity", "CONV.whitelist", "CONV.agree", "CONV.cell"},
+		Technique: "extraction of both managers' conversion matrices from SSA (source dispatch × target switch) and table agreement with the statement's conventions and whitelist",
+		Explanation: "Both managers' Convert dispatch and convertFrom* helpers are extracted into source×target matrices of normalised payload expressions. Checked: the setter equals the requested type in every cell; the unchanged argument is returned exactly under 'own type or Object requested' and before any dispatch; the type-safe success cells are exactly the whitelist and agree expression-for-expression with the type-unsafe cells; the unsafe numeric/temporal cells follow the unit conventions (time.Millisecond, Unix seconds), direct widening, truncation and (x != 0).",
+		NotDecided: "value-level exactness of round trips ('within exact range'), string↔number/date round trips implemented by the commons converters, overflow",
+		LevelText:  "Table agreement over the full 11×11 matrices of both managers on every run. A deviating cell is a conversion that returns the wrong type, a wrong unit or an un-whitelisted success for every value of that source type.",
+		LevelNote:  "Trusted: go/ssa; Go conversion semantics; the commons converters for string targets. The round-trip equations are decided only through unit/shape agreement of the two directions.",
+	},
+	 {ID: "C08"}, {ID: "C09"}, {ID: "C10"},
 	{ID: "C11"}, {ID: "C12"}, {ID: "C13"}, {ID: "C14"}, {ID: "C15"}, {ID: "C16"}, {ID: "C17"}, {ID: "C18"}, {ID: "C19"}, {ID: "C20"},
 }
 
